@@ -8,6 +8,7 @@ import (
 	"iter"
 	"strconv"
 	"strings"
+	"sync/atomic"
 	"time"
 
 	eventbus "github.com/jilio/ebu"
@@ -36,6 +37,9 @@ var _ eventbus.EventStore = (*SQLiteStore)(nil)
 var _ eventbus.EventStoreStreamer = (*SQLiteStore)(nil)
 var _ eventbus.SubscriptionStore = (*SQLiteStore)(nil)
 
+// memDBCounter gives every ":memory:" store its own database name
+var memDBCounter atomic.Int64
+
 // dbOpener is used to open database connections, injectable for testing
 var dbOpener = sql.Open
 
@@ -63,8 +67,10 @@ func New(path string, opts ...Option) (*SQLiteStore, error) {
 	// Build connection string with pragmas
 	var dsn string
 	if cfg.path == ":memory:" {
-		// Use shared cache mode for in-memory databases to allow multiple connections
-		dsn = "file::memory:?mode=memory&cache=shared"
+		// Use shared cache mode for in-memory databases to allow multiple connections.
+		// Each store gets its own named database so that separately created
+		// in-memory stores do not share events.
+		dsn = fmt.Sprintf("file:ebu-memdb-%d?mode=memory&cache=shared", memDBCounter.Add(1))
 	} else {
 		dsn = fmt.Sprintf("file:%s?_busy_timeout=%d", cfg.path, cfg.busyTimeout.Milliseconds())
 	}
